@@ -94,10 +94,12 @@ class Mod(object):
         self.tree = ast.parse(src, filename=path)
         self.canon_stats = {}
         self.canon_log = []
+
+    def canonicalise(self):
         if os.environ.get("SA_NO_CANON") != "1":
             from .canon import canonicalise
             from .known_funcs import KNOWN
-            canonicalise(self.tree, name, KNOWN, self.canon_stats, self.canon_log)
+            canonicalise(self.tree, self.name, KNOWN, self.canon_stats, self.canon_log)
         self.funcs = {}       # local qualname ('f' or 'C.m') -> Func
         self.classes = {}     # name -> Cls
         self.imports = {}     # local name -> ('mod', dotted) | ('attr', dotted module, attr)
@@ -175,6 +177,11 @@ class Pkg(object):
             except (SyntaxError, UnicodeDecodeError) as e:
                 raise AnalysisError("E0", "cannot parse %s: %s" % (rel, e))
             self.mods[name] = mod
+        from . import canon as _canon
+        _canon.SIGS.clear()
+        _canon.SIGS.update(_canon.build_signatures([m.raw_tree for m in self.mods.values()]))
+        for mod in self.mods.values():
+            mod.canonicalise()
             self._index(mod)
         self.digest = h.hexdigest()
 
